@@ -71,6 +71,35 @@ def stepR (s : State) (op obs : List String) : State × Option String :=
       | some s' => cmp s' s!"ok {dumpR s'}"
       | none => cmp s "PANIC"
     | _, _, _ => (s, some "BAD rcv args")
+  | ["rcvq", a, b, c] =>
+    match a.toNat?, b.toNat?, c.toNat? with
+    | some pn, some e, some pto =>
+      match onRcvdPn s pn (e == 1) pto with
+      | some s' => cmp s' "ok"
+      | none => cmp s "PANIC"
+    | _, _, _ => (s, some "BAD rcvq args")
+  | ["genq", a, b, c, d] =>
+    -- bulk leg: frame compared (exactly, or through the relation), no state dump on the line
+    match a.toNat?, b.toNat?, c.toNat?, d.toNat? with
+    | some pn, some largest, some delay, some cap =>
+      let (s', out) := genAck s pn largest delay cap
+      let mine := match out with
+        | .ok f => frameStr f
+        | .congestion => "CONGESTION"
+        | .panic => "PANIC"
+        | .overflow => "OVERFLOW"
+      if mine == theirs then (s', none)
+      else
+        match obs with
+        | "ack" :: rest =>
+          match kvNat rest "L", kvNat rest "D", kvNat rest "first", (kv rest "ranges").bind parsePairs, kvNat rest "size" with
+          | some l, some dl, some fi, some rs, some sz =>
+            let f : AckFrame := ⟨l, dl, fi, rs⟩
+            if f.size == sz && frameRelOk s largest delay cap f && (match out with | .ok _ => true | _ => false)
+            then (s', none) else (s', some (mine.take 300).toString)
+          | _, _, _, _, _ => (s', some (mine.take 300).toString)
+        | _ => (s', some (mine.take 300).toString)
+    | _, _, _, _ => (s, some "BAD genq args")
   | ["dec", v, x] =>
     match x.toNat? with
     | some x =>
